@@ -4,7 +4,7 @@ README of its author, meta.json) from /tmp/mut-<prop>/_out/<X> and work/muteval/
 import glob, json, os, re, shutil, sys
 ROOT = os.path.dirname(os.path.dirname(os.path.abspath(__file__)))
 prop, x = sys.argv[1], sys.argv[2]
-src = {"A": "/tmp/mut-%s/_out/A", "B": "/tmp/mut-%s/_out/B", "C": "/tmp/m3-%s/_out/A", "D": "/tmp/m3-%s/_out/B", "E": "/tmp/m4-%s/_out/A", "F": "/tmp/m4-%s/_out/B", "G": "/tmp/m5-%s/_out/A", "H": "/tmp/m5-%s/_out/B", "I": "/tmp/m6-%s/_out/A", "J": "/tmp/m6-%s/_out/B"}[x] % prop.lower()
+src = {"A": "/tmp/mut-%s/_out/A", "B": "/tmp/mut-%s/_out/B", "C": "/tmp/m3-%s/_out/A", "D": "/tmp/m3-%s/_out/B", "E": "/tmp/m4-%s/_out/A", "F": "/tmp/m4-%s/_out/B", "G": "/tmp/m5-%s/_out/A", "H": "/tmp/m5-%s/_out/B", "I": "/tmp/m6-%s/_out/A", "J": "/tmp/m6-%s/_out/B", "K": "/tmp/m7-%s/_out/A", "L": "/tmp/m7-%s/_out/B"}[x] % prop.lower()
 ev = json.load(open(os.path.join(ROOT, "work", "muteval", "%s-%s.json" % (prop, x))))
 dst = os.path.join(ROOT, "seeded", "%s-%s" % (prop, x))
 os.makedirs(dst, exist_ok=True)
